@@ -264,13 +264,13 @@ sys_prop(
     "cached under its key.  One model serves the three front-ends; sysdiff runs the same histories through "
     "all of them.  Partial: `a failed load caches nothing under its own key` is observed by the "
     "correspondence, not proved (it needs a termination argument for self-referential scripts).",
-    ["Proofs/SysGrows.v", "Proofs/SysStatic.v", "Proofs/SysMap.v", "Props/C02.v"], ["Props/C02.vo"],
+    ["Proofs/SysGrows.v", "Proofs/SysStatic.v", "Proofs/SysMap.v", "Tie/Graph.v", "Props/C02.v"], ["Props/C02.vo"],
     ["C02_load_only_adds", "C02_load_owned_adds_nothing_of_its_own", "C02_get_cached_and_contains_add_nothing",
      "C02_load_of_a_present_key_returns_it", "C02_successful_load_is_cached",
      "C02_get_or_insert_never_overwrites", "C02_get_or_insert_inserts_when_absent",
      "C02_remove_deletes_exactly_its_key", "C02_take_deletes_exactly_its_key_and_returns_it",
-     "C02_clear_empties"],
-    [], ["handle-changed", "key-type-confusion"])
+     "C02_clear_empties", "C02_code_keys_compare_type_and_id"],
+    ["Private", "Deps"], ["handle-changed", "key-type-confusion"])
 
 sys_prop(
     "C03",
